@@ -152,8 +152,11 @@ class NCVar:
                 stop = None if k.stop is None else (k.stop.__index__() if is_sym(k.stop) else int(k.stop))
                 if k.step not in (None, 1):
                     raise Unsupported("strided NetCDF write")
-                if start < 0 or (stop is not None and stop < 0):
-                    raise Unsupported("negative slice in NetCDF write")
+                # numpy semantics relative to the current length of the dimension (checked against real netCDF4)
+                if start < 0:
+                    start = max(0, start + cur)
+                if stop is not None and stop < 0:
+                    stop = max(0, stop + cur)
                 if stop is None:
                     free.append(ax)
                     idxs.append(("open", start, cur, unlimited))
